@@ -40,6 +40,13 @@ func runReal(t *testing.T, tr *vrt.Tracer, sc udpScenario, batch, poison bool) {
 	{
 		lc := ListenConfig{Backlog: 2, AcceptFilter: func(b []byte) bool { return len(b) > 4 && b[4] == 1 }}
 		if batch {
+			// the filter dawdles so that the datagrams sent behind one from a new remote wait in the socket
+			// and come out of one ReadBatch together
+			lc.AcceptFilter = func(b []byte) bool {
+				time.Sleep(2 * time.Millisecond)
+
+				return len(b) > 4 && b[4] == 1
+			}
 			lc.Batch = BatchIOConfig{Enable: true, ReadBatchSize: 4, WriteBatchSize: 2, WriteBatchInterval: 2 * time.Millisecond}
 		}
 		ln, err := lc.Listen("udp", &net.UDPAddr{IP: net.IPv4(127, 0, 0, 1), Port: 0})
@@ -54,6 +61,7 @@ func runReal(t *testing.T, tr *vrt.Tracer, sc udpScenario, batch, poison bool) {
 		nacc, nextMsg := 0, 0
 		blocked := []int{}
 		stuck := false
+		unsettled := false
 		within := func(f func()) bool {
 			done := make(chan struct{})
 			go func() { defer close(done); f() }()
@@ -81,9 +89,17 @@ func runReal(t *testing.T, tr *vrt.Tracer, sc udpScenario, batch, poison bool) {
 				nextMsg++
 				tr.Emit(vrt.M{"ev": "send", "r": op.R, "m": nextMsg, "admit": op.Admit})
 				_, _ = rs.Write(dgram(nextMsg, op.R, op.Admit))
-				time.Sleep(3 * time.Millisecond) // let the read loop dispatch it
+				if batch {
+					unsettled = true // back to back: settled before the next call
+				} else {
+					time.Sleep(3 * time.Millisecond) // let the read loop dispatch it
+				}
 
 				continue
+			}
+			if unsettled {
+				time.Sleep(25 * time.Millisecond)
+				unsettled = false
 			}
 			var conn net.Conn
 			if op.Op == "cclose" || op.Op == "write" || op.Op == "read" {
@@ -140,7 +156,7 @@ func runReal(t *testing.T, tr *vrt.Tracer, sc udpScenario, batch, poison bool) {
 			}
 			tr.Emit(r)
 		}
-		time.Sleep(5 * time.Millisecond)
+		time.Sleep(25 * time.Millisecond)
 		// is the port still bound?
 		sockOpen := true
 		if probe, err := net.ListenUDP("udp", laddr); err == nil {
